@@ -147,11 +147,11 @@ from vlib.matrix import matrix_histories  # noqa: E402
 
 
 def units(tier, seed):
-    n = 120 if tier == "quick" else 2400
-    us = [{"seed": seed * 30011 + i, "n": 6} for i in range(0, n, 6)]
+    n = 120 if tier == "quick" else 840
+    us = [{"seed": seed * 30011 + i, "n": 3} for i in range(0, n, 3)]
     nm = len(matrix_histories())
     idx = list(range(nm)) if tier == "thorough" else [i for i in range(nm) if (i + seed) % 8 == 0]
-    us += [{"matrix": idx[i:i + 4], "seed": seed} for i in range(0, len(idx), 4)]
+    us += [{"matrix": idx[i:i + 2], "seed": seed} for i in range(0, len(idx), 2)]
     return us
 
 
